@@ -80,7 +80,7 @@ CLAIMED.update({
              'bind_command_arguments -> the command), executed through the real not command with a recording command: outside the open known-finding '
              'classes every argument value reaches the wrapped command unchanged (same count, same strings); each open class is re-asked and printed as '
              'KNOWN-FINDING only while the solver still finds it and it replays natively. A call-graph check on the current MIR ties the other wrappers to the same path.',
-        note='Bounds: quick 1 value <= 2 chars (all Unicode) + keyword-looking first value with a second value <= 1 char; thorough 1x3, 2x1, keyword+2. '
+        note='Bounds: quick 1 value <= 2 chars (all Unicode) + keyword-looking first value with a second value <= 1 char; thorough 1x3, 2x1, keyword (8 words) + 1. '
              'Six open known-finding classes (line break, #, binding syntax, double quote, trailing Unicode white space, leading =): genuine, recorded, not repaired. ' + TRUST,
         ref='4/C09'),
     'C12': dict(
